@@ -227,8 +227,10 @@ pub fn case_s() -> BoxedStrategy<DCase> {
         any::<bool>(),
         proptest::collection::vec(any::<u8>(), 32),
         prop_oneof![7 => Just(true), 3 => Just(false)],
+        // one case in six: a definition (whatever kind comes next) laid across the end of the 1 MiB space
+        proptest::option::weighted(0.17, (proptest::sample::select(vec![(0xFFFFu16, 16u16), (0xFFFE, 32), (0xFFF0, 256), (0xF001, 65520)]), 1u16..12, any::<u16>())),
     )
-        .prop_map(|(decls, steer, tail_label, choices, small)| {
+        .prop_map(|(decls, steer, tail_label, choices, small, wrap)| {
             let mut used = std::collections::HashSet::new();
             let mut data: Vec<DataDecl> = Vec::new();
             for (l, d) in decls {
@@ -256,6 +258,16 @@ pub fn case_s() -> BoxedStrategy<DCase> {
                         data.push(DataDecl::Item { label, word, kind });
                     }
                     s => data.push(s),
+                }
+            }
+            if let Some(((seg, room), back, at)) = wrap {
+                // SET seg, then zeros up to `back` bytes before the top: the following item straddles FFFFFh -> 0
+                let pos = crate::pt::idx(at, data.len() + 1);
+                data.insert(pos, DataDecl::Item { label: None, word: false, kind: DataKind::Zeros(room - back.min(room)) });
+                data.insert(pos, DataDecl::Set(seg));
+                // make sure something of size follows
+                if pos + 2 >= data.len() {
+                    data.push(DataDecl::Item { label: Some("over_top".into()), word: at & 1 == 1, kind: if at & 2 == 0 { DataKind::Str("across the top!".into()) } else { DataKind::Fill(0x5AA5, 9) } });
                 }
             }
             if let Some(delta) = steer {
@@ -570,6 +582,15 @@ fn boundary_family() -> Vec<(String, DCase)> {
     v.push(("set-resets-then-over".into(), vec![z(65535), DataDecl::Set(0x2000), z(65535), z(5), lab("after", false, DataKind::Val(9))]));
     // high segment: data wraps the 1 MiB space
     v.push(("wraps-1MiB".into(), vec![DataDecl::Set(0xFFFF), lab("w", true, DataKind::Fill(0xA1B2, 20)), lab("after", false, DataKind::Val(9))]));
+    for (k, kind) in [DataKind::Str("string across the top".into()), DataKind::Fill(0x5A, 20), DataKind::Zeros(20), DataKind::Val(0xBEEF)].into_iter().enumerate() {
+        for word in [false, true] {
+            let kind = match (&kind, word) {
+                (DataKind::Val(v), false) => DataKind::Val(v & 0xFF),
+                (k, _) => k.clone(),
+            };
+            v.push((format!("wraps-1MiB-kind{}-{}", k, if word { "dw" } else { "db" }), vec![z(3), DataDecl::Set(0xFFFF), z(if word { 15 } else { 10 }), lab("w", word, kind), lab("after", false, DataKind::Val(9))]));
+        }
+    }
     v.into_iter().map(|(n, data)| (n, DCase { data, choices: vec![0] })).collect()
 }
 
